@@ -150,6 +150,7 @@ func runC05(c *eng.Ctx) {
 	RunInitializerCycles(c, cr.next)
 	RunLiveProviderVsCyclicEdit(c, cr.next)
 	RunRefusedThenValid(c, "C05", cr.next)
+	RunRetryTerminates(c, cr.next)
 	lifeSets := [][4]godi.Lifetime{
 		{godi.Singleton, godi.Singleton, godi.Singleton, godi.Singleton},
 		{godi.Scoped, godi.Scoped, godi.Scoped, godi.Scoped},
